@@ -9,7 +9,7 @@ TECH = "bounded symbolic execution of the real C code (goto-cc + cbmc 6.11, SAT/
 CLAIMS = {
  "C01": ("5 (C01)", 'Stage-wise, bounded: each stage of the pipeline that fits is decided by solver queries over the real code against a short reference, for all inputs inside the stated bounds: initial RLE collect() (byte-wise reference, arbitrary pre-states, in-line shapes), MTF/zero-run coding do_mtf(), stream frame + CRC fold of compress.c; on the way back the header parser, bitmap/selector/delta stages, decoding tables + symbol lookup, one-symbol step of the MTF-value loop, inverse BWT decode() (against the definition of the transform), and the resumable un-RLE emit() (split-independence and inductive step). The composition argument is written in DESIGN.md; it is not a whole-pipeline round-trip proof.',
          'transmit() is read back bit by bit by a strict inspector written from the format (transmit_*, in the thorough tier of this property and in the quick tier of C02: symbol map, selectors, delta-coded lengths with tree_pad, codes, byte-exact size), assign_codes() at scaled limits (assign_opt_*). NOT covered: divbwt() (forward BWT), the clustering passes of generate_prefix_code()/make_code_lengths(), mtf_one() on a used sliding list, the fast decoding path: a defect confined to those is not detected. Scaled format constants where stated per obligation; schedules only through C03/C11.'),
- "C02": ("5 (C02)", "Bounded, partial: block capacity (collect() never exceeds max_block_size, INV re-established), at most nblock+1 MTF symbols (sizes the selector arrays), header 'BZh'+level, end-of-stream magic and combined CRC = fold of stored block CRCs restarted per stream (also for an empty second stream), CRC table = CRC-32/BZIP2; the block body written by transmit() is walked bit by bit by a strict inspector written from the format (magic, stored CRC, randomisation flag 0, primary index field, two-level symbol map, table count 2..6, selector count and unary selectors naming existing tables, start lengths and every running delta value within 1..20 incl. the tree_pad padding trick, codes, announced size hit exactly, whole bytes, zero padding) for arbitrary small encoder states; the dummy second table of a single-table block is complete with lengths 1..20 for every alphabet size 3..258; assign_codes() writes complete tables within the (scaled) limit; all by solver queries over the real code.",
+ "C02": ("5 (C02)", "Bounded, partial: block capacity (collect() never exceeds max_block_size, INV re-established), at most nblock+1 MTF symbols (sizes the selector arrays), header 'BZh'+level, end-of-stream magic and combined CRC = fold of stored block CRCs restarted per stream (also for an empty second stream), CRC table = CRC-32/BZIP2; the block body written by transmit() is walked bit by bit by a strict inspector written from the format (magic, stored CRC, randomisation flag 0, primary index field, two-level symbol map, table count 2..6, selector count and unary selectors naming existing tables, start lengths and every running delta value within 1..20 incl. the tree_pad padding trick, codes, announced size hit exactly, whole bytes, zero padding, nothing written behind the (size+3)/4 words compress.c allocates) for arbitrary small encoder states; the dummy second table of a single-table block is complete with lengths 1..20 for every alphabet size 3..258; assign_codes() writes complete tables within the (scaled) limit; all by solver queries over the real code.",
          'NOT covered: blocks with several groups in transmit(), delta runs above 3 steps, that the primary index divbwt() returns lies inside the block, the clustering passes (make_code_lengths) and multi-table renumbering of generate_prefix_code(), the 18002 selector bound at production block sizes; libbz2 agreement is not encodable (the inspector is written from the format).'),
  "C03": ("5 (C03)", "xread() fills whole chunks under every read() fragmentation; xwrite() transfers every byte once under every short-write pattern; in_granul == level*100000; "
          "the real reorder queue hands blocks to the writer in position order with the combined CRC restarted per stream; rely/guarantee steps of the real tasks keep the monitor invariant for 1..3 workers.",
